@@ -993,7 +993,12 @@ theorem pre_shape (st : St) (tid : Nat) (op : ApiOp) :
     · apply bal_append (bal_rel _); split <;> simp [bal]
   case sAssign d s =>
     left; split
-    · exact bal_shareAssign _ _ _
+    · split
+      · rfl
+      · exact bal_shareAssign _ _ _
+    · split
+      · exact bal_rel _
+      · exact bal_append (bal_rel _) (by simp [bal])
     · exact bal_append (bal_rel _) (by simp [bal])
   case sClear d => right; exact rd _ _ (fun s1 h => by simp only [post, h, if_true]; exact ⟨_, [], rfl, rfl⟩)
   case sAppend d bytes => right; exact rd _ _ (fun s1 h => by simp only [post, h, if_true]; exact ⟨_, [], rfl, rfl⟩)
